@@ -158,7 +158,7 @@ Section Hist.
   Proof.
     apply (T_mux_step GH).
     - intros; assumption.
-    - intros m' d ntp H. unfold GH, createFirstSegment in *. cbn [set_stream m_streams].
+    - intros m' d ntp ti0 t0 _ _ H. unfold GH, createFirstSegment in *. cbn [set_stream m_streams].
       apply Forall2_map_r; auto. intros x y Hxy. eapply R_trans; [exact Hxy|apply R_createFirst].
     - intros; now apply GH_rotp.
     - apply GH_rots.
